@@ -28,13 +28,13 @@ var kindContentCells = map[string]bool{
 // book-keeping (it may be set on an input when a container is legitimately shared).
 var tableContentCells = map[string]bool{
 	"roaringArray.keys": true, "roaringArray.containers": true, "roaringArray.copyOnWrite": true,
-	"Bitmap.highlowcontainer": true,
+	"Bitmap.highlowcontainer":       true,
 	"roaring64.roaringArray64.keys": true, "roaring64.roaringArray64.containers": true, "roaring64.roaringArray64.copyOnWrite": true,
 	"roaring64.Bitmap.highlowcontainer": true,
 }
 
 var bookkeepingCells = map[string]bool{
-	"roaringArray.needCopyOnWrite":            true,
+	"roaringArray.needCopyOnWrite":             true,
 	"roaring64.roaringArray64.needCopyOnWrite": true,
 }
 
